@@ -13,6 +13,7 @@ import z3
 from ir import *
 
 class Unsupported(Exception): pass
+CALL_REAL = object()
 class Abort(Exception): pass          # path ended in unreachable / assume(false)
 class PathEnd(Exception): pass
 class LoopBound(Exception): pass
@@ -46,7 +47,8 @@ def contains_uf(t, _cache={}):
 class SymFP:
     """doubles as z3 Reals; rounded ops are UFs with ground axioms A1-A5,A8,A9 (DESIGN.md 2.2)"""
     concrete = False
-    def __init__(s, monotone=False, exact_add=False):
+    def __init__(s, monotone=False, exact_add=False, strict=False):
+        s.strict = strict   # stated no-underflow domain: products/quotients/roots of non-zero values are non-zero
         s.ax = []; s.seen = set(); s.UF = {}; s.tiny_sites = []; s.side = []; s.monotone = monotone; s.apps = {}
         s.exact_add = exact_add    # A7 mode: additions are exact, each use records a representability side condition (proved by the caller)
         s.exact_obl = []; s.num = {}; s.keep = []
@@ -158,7 +160,8 @@ class SymFP:
             s.ax.append(z3.Implies(a == 1, t == b)); s.ax.append(z3.Implies(b == 1, t == a))
             s.ax.append(z3.Implies(z3.And(a >= 0, b >= 0), t >= 0)); s.ax.append(z3.Implies(z3.And(a <= 0, b <= 0), t >= 0))
             s.ax.append(z3.Implies(z3.And(a >= 0, b <= 0), t <= 0)); s.ax.append(z3.Implies(z3.And(a <= 0, b >= 0), t <= 0))
-            # strictness is NOT a theorem (underflow to zero): (a>0 and b>0) does not imply t>0.  Not asserted.
+            # strictness is NOT a theorem in general (underflow to zero); asserted only for harnesses whose stated domain excludes underflow
+            if s.strict: s.ax.append(z3.Implies(z3.And(a != 0, b != 0), t != 0))
             s.mono('fmul', t, (a, b))
         return t
     def fadd(s, a, b):
@@ -217,6 +220,7 @@ class SymFP:
             s.ax.append(z3.Implies(z3.And(a >= 0, b < 0), t <= 0)); s.ax.append(z3.Implies(z3.And(a <= 0, b < 0), t >= 0))
             # |a| <= |b| => |a/b| <= 1 ; |a| >= |b| => |a/b| >= 1  (rounding is monotone, 1 is representable)
             s.ax.append(z3.Implies(z3.And(a >= 0, b > 0, a <= b), t <= 1)); s.ax.append(z3.Implies(z3.And(a >= 0, b > 0, a >= b), t >= 1))
+            if s.strict: s.ax.append(z3.Implies(z3.And(a != 0, b != 0), t != 0))
             s.mono('fdiv', t, (a, b))
         return t
     def fun1(s, name, a):
@@ -268,6 +272,7 @@ class SymFP:
         if pr in ('uno', 'false'): return z3.BoolVal(False)
         if tie_free and pr[1:] in ('lt', 'le', 'gt', 'ge') and (contains_uf(a) or contains_uf(b)) and not (is_const(a) and is_const(b)):
             s.ties.append(z3.simplify(a == b))
+            s.ax.append(a != b)        # stated exclusion: no ties between computed values (flushed into the solver like an axiom)
             pr = pr[0] + {'le': 'lt', 'ge': 'gt'}.get(pr[1:], pr[1:])
         r = {'eq': a == b, 'ne': a != b, 'lt': a < b, 'le': a <= b, 'gt': a > b, 'ge': a >= b}[pr[1:]]
         return z3.simplify(r)
@@ -755,7 +760,9 @@ def run_function(E, fname, args, depth=0):
                         if E.branch(v == z3.BitVecVal(cv, bits)): tgt = l; break
                     if tgt is None: tgt = i.default
                 prev, cur = cur, tgt; break
-            elif op == 'ret': return val(i.v, i.ty) if i.v is not None else None
+            elif op == 'ret':
+                if getattr(E, 'trace_regs', None) is not None: E.trace_regs.append((fname, dict(regs)))
+                return val(i.v, i.ty) if i.v is not None else None
             elif op == 'unreachable' or op == 'landingpad': raise Abort('unreachable')
             elif op == 'fence': pass
             elif op == 'extractvalue':
@@ -802,6 +809,11 @@ def run_function(E, fname, args, depth=0):
 def call(E, nm, av, i, depth, caller):
     fp = E.fp; m = E.m
     if nm in E.stubs and callable(E.stubs[nm]): return E.stubs[nm](E, av)
+    for key, fn in E.stubs.items():
+        # pattern hooks ('~substring'): called before the real function; may add stated assumptions; CALL_REAL continues into the real body
+        if key[0] == '~' and key[1:] in nm and callable(fn):
+            r = fn(E, nm, av)
+            if r is not CALL_REAL: return r
     if nm.startswith('@llvm.lifetime') or nm.startswith('@llvm.dbg') or nm.startswith('@llvm.experimental.noalias') or nm == '@llvm.assume' or nm.startswith('@llvm.invariant'): return None
     if nm == '@__verif_check':
         c = av[0]
